@@ -494,6 +494,36 @@ func (g *c10Gen) clause() (*term.Term, map[int64]*term.Term) {
 		if !alt.IsCmp(";", 2) {
 			conjuncts(alt)
 		}
+		// ... and nowhere else as a goal: the same variable inside a nested disjunction or an if-then-else would carry
+		// the cut to a place where this engine makes it local (outside C03's scope)
+		top, all := map[int64]int{}, map[int64]int{}
+		var count func(t *term.Term, m map[int64]int, deep bool)
+		count = func(t *term.Term, m map[int64]int, deep bool) {
+			switch {
+			case t.IsCmp(",", 2):
+				count(t.Args[0], m, deep)
+				count(t.Args[1], m, deep)
+			case deep && (t.IsCmp(";", 2) || t.IsCmp("->", 2)):
+				count(t.Args[0], m, deep)
+				count(t.Args[1], m, deep)
+			case t.K == term.KVar:
+				m[t.I]++
+			}
+		}
+		count(cl.Args[1], all, true)
+		alt = cl.Args[1]
+		for alt.IsCmp(";", 2) && !alt.Args[0].IsCmp("->", 2) {
+			count(alt.Args[0], top, false)
+			alt = alt.Args[1]
+		}
+		if !alt.IsCmp(";", 2) {
+			count(alt, top, false)
+		}
+		for id := range topVars {
+			if top[id] != all[id] {
+				delete(topVars, id)
+			}
+		}
 	}
 	ids := make([]int64, 0, len(goalVars))
 	for id := range goalVars {
